@@ -30,9 +30,27 @@ SCRATCH = '/dev/shm/asyncssh-verif-c19-%d' % os.getpid()       # unique per chec
 
 # ------------------------------------------------------------------ splitter model
 class Model:
-    def __init__(self, data):
+    def __init__(self, data, limit=None):
         self.d = data
         self.p = 0
+        self.limit = limit      # stream buffer limit (= receive window): a separator search gives up there
+
+    def overrun(self, op, rec):
+        """Is the recorded result of a readline/readuntil(newline) call the documented buffer-overrun
+        answer?  The search gives up once the stream buffer (limit = receive window) is full without a
+        separator in it: the buffered data -- at least `limit` units, a separator-free proper prefix of
+        the rest -- comes back (readline: as the value; readuntil: as IncompleteReadError.partial)."""
+        if not self.limit or op[0] not in ('readline', 'readuntil'):
+            return False
+        form = rec[1] == 'ok' if op[0] == 'readline' else (rec[1] == 'incomplete' and rec[3] is None)
+        v, rest = rec[2], self.rest()
+        if not form or not isinstance(v, (bytes, str)):
+            return False
+        nl = b'\n' if isinstance(rest, bytes) else '\n'
+        if len(v) >= self.limit and len(v) < len(rest) and rest.startswith(v) and nl not in v:
+            self.p += len(v)
+            return True
+        return False
 
     def rest(self):
         return self.d[self.p:]
@@ -127,7 +145,7 @@ def run_stream(cfg, chooser, seed=0):
                         eofs += 1
                 except asyncio.IncompleteReadError as exc:
                     results.append((op, 'incomplete', exc.partial, exc.expected))
-                    eofs += 1
+                    eofs += 1 if (r.at_eof() or not exc.partial) else 0
         task = loop.create_task(client())
         steps = 0
         while True:
@@ -146,13 +164,15 @@ def run_stream(cfg, chooser, seed=0):
         elif task.exception() is not None:
             viol.append(('reader-exception', repr(task.exception())))
         # compare with the splitter model
-        m = Model(S)
+        m = Model(S, limit=cfg.get('win'))
         for rec in results:
             op = rec[0]
             if op[0] == 'readuntil-re':
                 mop = ('readuntil', op[3])
             else:
                 mop = op
+            if m.overrun(mop, rec):
+                continue
             exp = m.call(mop)
             if exp[0] == 'some':
                 v = rec[2] if rec[1] == 'ok' else None
@@ -226,6 +246,15 @@ def stream_jobs(tier):
                          ('readexactly(193)', [('readexactly', 193)]), ('read(-1)', [('read', -1)])):
         for pkt in (7, 32):
             jobs.append((dict(name='3xwindow', S=big, pkt=pkt, win=64, cname=cname, calls=calls), bound))
+    # lines longer than the stream buffer (= window): returned in buffer-sized pieces, reading carries on afterwards
+    for sname, S in (('overlong-line', bytes(97 + i % 26 for i in range(150)) + b'\ntail\n'),
+                     ('overlong-exact', bytes(97 + i % 26 for i in range(63)) + b'\n' + bytes(65 + i % 26 for i in range(64)) + b'\nz'),
+                     ('overlong-no-nl', bytes(97 + i % 26 for i in range(130)))):
+        for cname, calls in (('readline', [('readline',)]), ('readuntil(nl)', [('readuntil', b'\n')]),
+                             ('readline,read(10)', [('readline',), ('read', 10)]),
+                             ('readuntil(nl),readexactly(3)', [('readuntil', b'\n'), ('readexactly', 3)])):
+            for pkt in (7, 32):
+                jobs.append((dict(name=sname, S=S, pkt=pkt, win=64, cname=cname, calls=calls), bound))
     # text mode with multi-byte characters
     T = 'aé\n€b\U0001d11e\nz'
     for cname, calls in (('readline', [('readline',)]), ('read(1)', [('read', 1)]), ('readexactly(2)', [('readexactly', 2)]),
@@ -502,7 +531,7 @@ def main(tier, seed):
                        {'stream_execs': n_a, 'exit_orders': len(orders), 'deviation_bound': 2 if tier == 'quick' else 3},
                        assumptions=['OS pipe redirection targets need connect_read_pipe/connect_write_pipe, which the '
                                     'virtual loop does not provide: not covered',
-                                    'readuntil with a stream longer than the window (documented limit overrun) not compared'])
+                                    'separator search beyond the stream buffer limit: single-byte separator only'])
 
 
 def replay(rep):
